@@ -3,7 +3,8 @@
    Proofs/MapReader*.v; statements are about the executable models Model/Datafile.v and
    Model/MapReader.v (tied to the Rust code by the correspondence run). *)
 From LibTw2 Require Import Base.Res Model.Datafile
-  Proofs.DatafileBase Proofs.DatafileParse Proofs.DatafileCheck Proofs.DatafileAccess.
+  Proofs.DatafileBase Proofs.DatafileParse Proofs.DatafileCheck Proofs.DatafileAccess
+  Proofs.DatafileShape Proofs.DatafileRoundtrip.
 From Coq Require Import ZArith List.
 Import ListNotations.
 Open Scope Z_scope.
@@ -39,14 +40,18 @@ Proof.
 Qed.
 
 (* Data blocks: read_data(i) reads exactly the bytes [off, off+len) of the data section,
-   which lie inside the section announced by the header, which lies inside the file; in
-   version 3 the result is that slice, in version 4 it is whatever zlib makes of that slice
-   with the announced size as capacity, accepted only if the size matches. *)
+   off being the i-th data offset and off+len the next one (or the section size); they lie
+   inside the section announced by the header, which lies inside the file; in version 3 the
+   result is that slice, in version 4 it is whatever zlib makes of that slice with the
+   announced size as capacity, accepted only if the size matches. *)
 Theorem C16_data_inside : forall bs r uncompress i, bytes_ok bs = true ->
   reader_new bs = Ok r -> 0 <= i < h_num_data (r_hdr r) ->
   exists off len,
     read_data_src r i = Ok (off, len) /\ 0 <= off /\ 0 <= len
     /\ off + len <= h_size_data (r_hdr r) /\ h_size_data (r_hdr r) <= zlen (r_data r)
+    /\ znth (r_data_offsets r) i = Some off
+    /\ (if i <? h_num_data (r_hdr r) - 1 then znth (r_data_offsets r) (i + 1) = Some (off + len)
+        else off + len = h_size_data (r_hdr r))
     /\ let raw := firstn (Z.to_nat len) (skipn (Z.to_nat off) (r_data r)) in
        match r_uds r with
        | None => read_data uncompress r i = Ok raw
@@ -59,10 +64,65 @@ Proof.
   exact (read_data_spec unc r i S Hi).
 Qed.
 
-Example C16_nonvacuous : reader_new [] = Err TooShortHeaderVersion.
+(* Well-formed files: for both versions (and the "crude" size convention), every item set
+   (grouped by ascending u16 type id, u16 ids, i32 words) and every list of data items
+   whose serialization stays below 2 GiB: the reader accepts the file the writer
+   specification (doc/datafile.md) prescribes and returns exactly the items, in order, and
+   exactly the data. Version 4 under the one hypothesis uncompress (compress d) = d. *)
+Theorem C16_wellformed : forall compress uncompress ver crude gs datas,
+  ver = 3 \/ ver = 4 -> wf_input compress ver gs datas = true ->
+  (ver = 4 -> forall d, In d datas -> uncompress (zlen d) (compress d) = ZOk d) ->
+  exists r, reader_new (serialize compress ver crude gs datas) = Ok r
+    /\ r_version r = (if ver =? 3 then V3 else if crude && negb (zlen datas =? 0) then V4Crude else V4)
+    /\ (exists vs, items r = Ok vs
+          /\ map (fun v => (iv_type v, (iv_id v, iv_data v))) vs
+             = flat_map (fun g : dgroup => map (pair (fst g)) (snd g)) gs
+          /\ Forall (view_inside r) vs)
+    /\ num_data r = Ok (zlen datas)
+    /\ (forall i d, nth_error datas i = Some d -> read_data uncompress r (Z.of_nat i) = Ok d).
+Proof.
+  intros compress unc ver crude gs datas Hver Hwf Hunc.
+  destruct (wellformed_roundtrip compress unc ver crude gs datas Hver Hwf Hunc) as (r & H1 & H2 & H3 & H4 & H5).
+  exists r. repeat split; auto.
+  intros i d Hi. apply nth_error_split in Hi. destruct Hi as (pre & post & Hd & Hlen).
+  rewrite <- Hlen. exact (H5 pre d post Hd).
+Qed.
+
+(* the two repaired defects, pinned: these inputs made Reader::new panic before the fix
+   commits (assert in relative_size_of_mult; `num_items - start` overflow) *)
+Example C16_fixed_unaligned_sizes :
+  reader_new [68; 65; 84; 65; 4; 0; 0; 0; 68; 0; 0; 0; 68; 0; 0; 0; 1; 0; 0; 0; 2; 0; 0; 0; 0; 0; 0; 0; 28; 0; 0; 0;
+              0; 0; 0; 0; 1; 0; 0; 0; 0; 0; 0; 0; 2; 0; 0; 0; 0; 0; 0; 0; 13; 0; 0; 0; 0; 0; 1; 0; 5; 0; 0; 0;
+              1; 2; 3; 4; 5; 1; 0; 1; 0; 7; 0; 0; 0; 1; 2; 3; 4; 5; 6; 7] = Err Malformed.
 Proof. vm_compute. reflexivity. Qed.
+Example C16_fixed_start_min :
+  reader_new [68; 65; 84; 65; 4; 0; 0; 0; 48; 0; 0; 0; 48; 0; 0; 0; 1; 0; 0; 0; 1; 0; 0; 0; 0; 0; 0; 0; 12; 0; 0; 0;
+              0; 0; 0; 0; 1; 0; 0; 0; 0; 0; 0; 128; 1; 0; 0; 0; 0; 0; 0; 0; 0; 0; 1; 0; 4; 0; 0; 0; 7; 0; 0; 0]
+  = Err Malformed.
+Proof. vm_compute. reflexivity. Qed.
+
+(* non-vacuity: a concrete item/data set meets wf_input in both versions (with a toy
+   compress/uncompress pair that satisfies the hypothesis), the serialized file opens, and
+   the empty string is rejected *)
+Definition ex_groups : list dgroup := [(0, [(0, [1])]); (5, [(0, [7; -3]); (1, [])]); (65535, [(9, [2147483647])])].
+Definition ex_datas : list bytes := [[1; 2; 3]; []; [255]].
+Definition ex_compress (d : bytes) : bytes := 120 :: d.
+Definition ex_uncompress (cap : Z) (s : bytes) : zres := match s with 120 :: d => ZOk d | _ => ZErr (-3) end.
+Example C16_nonvacuous :
+  reader_new [] = Err TooShortHeaderVersion
+  /\ wf_input ex_compress 3 ex_groups ex_datas = true /\ wf_input ex_compress 4 ex_groups ex_datas = true
+  /\ (forall d, ex_uncompress (zlen d) (ex_compress d) = ZOk d)
+  /\ (match reader_new (serialize ex_compress 4 true ex_groups ex_datas) with
+      | Ok r => r_version r = V4Crude /\ item_types r = Ok [0; 5; 65535]
+                /\ find_item r 5 1 = Ok (Some {| iv_type := 5; iv_id := 1; iv_off := 9; iv_len := 0; iv_data := [] |})
+                /\ read_data ex_uncompress r 0 = Ok [1; 2; 3]
+      | _ => False end).
+Proof. vm_compute. repeat split; reflexivity. Qed.
 
 Print Assumptions C16_open_total.
 Print Assumptions C16_accessors_total.
 Print Assumptions C16_data_inside.
+Print Assumptions C16_wellformed.
+Print Assumptions C16_fixed_unaligned_sizes.
+Print Assumptions C16_fixed_start_min.
 Print Assumptions C16_nonvacuous.
